@@ -270,4 +270,17 @@ theorem fixed_refuses_F4_witnesses :
     (decodeTx witCanonical).isSome = true :=
   fixed_refuses_witnesses
 
+-- OPEN: alloc_bounded — `∀ bs, allocated (NewTx bs) ≤ c·|bs| + c'` for REJECTED inputs as well. The model carries no
+--   allocation counter; what is proved is the guard every `make` sits behind
+--   (`length_fields_canonical_and_bounded`: the count is ≤ the bytes left) and, for accepted inputs, that all
+--   elements lie inside the consumed bytes (`decode_reencode`). The byte-level bound is measured on the real code
+--   by the harness (child process with a 3 GiB address-space limit; runtime.MemStats delta ≤ 64·len + 8192).
+-- OPEN: txsize_spec — `decodeTx bs = some (tx, n) → txSize bs = n` and `txSize bs ≤ bs.length`. `Wire.txSize`
+--   is compared with btc.TxSize on every harness case and the predicate is evaluated on the real code; no Lean proof yet.
+-- OPEN: accepts_iff_core — exact equality with Bitcoin Core's accept set. `accepted_iff_serialisation` gives it for
+--   well-formed transactions (≥ 1 input). The decoder additionally accepts zero-input transactions in legacy form whose
+--   output count byte is not 01 (Core: "unknown optional data" for 02…ff); such a transaction re-encodes identically
+--   (`decode_reencode` covers it) and is refused by CheckTransaction. Not repaired (documented deviation).
+-- OPEN: merkle — `Block.GetMerkle` / `MerkleRootMatch` are not in the model.
+
 end GocoinV.Props.C09
